@@ -153,7 +153,7 @@ def write_evidence(path, pid, tier, seed, mod, build, results, extra, t0, nviol=
         "samples": samples or [{"note": "no query ran"}],
         "checker_cmd": "cbmc 6.11.0 (see per-query cmd in samples/cmds)",
         "cmds": [r.cmd for r in results[:6]],
-        "trusted_base": meta.get("trusted", []) + ["CBMC 6.11.0 C front end, symex and MiniSat back end", "models/libc.c (validated against glibc by vf/validate_models.py)"],
+        "trusted_base": meta.get("trusted", []) + ["CBMC 6.11.0 C front end, symex and MiniSat back end", "models/libc.c (hand-written models of strcspn/strspn/strtoul/vsnprintf/explicit_bzero/arc4random_buf; trusted)"],
         "frontend_fixups": getattr(build, "fixups_applied", []) if build else [],
         "known_findings_reported": [k.get("id") for k, _ in known_hits],
         "machinery_errors": [r.name + ": " + r.detail[:200] for r in errors] + ([error] if error else []),
